@@ -53,3 +53,4 @@ impl Display for FileSizeHistogram {
         std::fmt::Result::Ok(())
     }
 }
+#[cfg(rjrssync_verif)] pub(crate) mod verif_hooks { include!(concat!(env!("RJRSSYNC_VERIF_HARNESS"), "/hooks_histogram.rs")); }
